@@ -24,18 +24,37 @@ def make_shell(text, opts=None):
     return shell, st
 
 
-def feed(shell, line):
-    """Run one command line. Returns (stdout, stderr writes, exception name or None, continue flag)."""
+class Hang(BaseException):
+    pass
+
+
+def _alarm(signum, frame):
+    raise Hang()
+
+
+def feed(shell, line, limit=0):
+    """Run one command line. Returns (stdout, stderr writes, exception name or None, continue flag).
+    limit > 0: seconds after which the command is reported as hanging."""
+    import signal
     exc, cont = None, True
     with proto.Capture() as cap:
+        if limit:
+            old = signal.signal(signal.SIGALRM, _alarm)
+            signal.setitimer(signal.ITIMER_REAL, limit)
         try:
             cont = shell.handle_command(line)
+        except Hang:
+            exc = "Hang: no return within {}s".format(limit)
         except SystemExit:
             exc = "SystemExit"
         except RecursionError:
             exc = "RecursionError"
         except Exception as e:  # noqa
             exc = type(e).__name__ + ": " + str(e)[:120]
+        finally:
+            if limit:
+                signal.setitimer(signal.ITIMER_REAL, 0)
+                signal.signal(signal.SIGALRM, old)
         out, errs = cap.take()
     return out, errs, exc, cont
 
